@@ -164,6 +164,7 @@ class Oracle:
     # -- AnnotateDSSP ------------------------------------------------------------
     def begin_annotate_dssp(self, proc, system):
         self.before['AnnotateDSSP'] = ([residues_of(m) for m in system.molecules], len(self.child.peer.calls) if self.child.peer else 0)
+        self.consulted_before = self.child.peer.consulted if self.child.peer else 0
 
     def end_annotate_dssp(self, proc, system, raised):
         child = self.child
@@ -171,6 +172,10 @@ class Oracle:
         if peer is None:
             return
         residues, ncalls0 = self.before.pop('AnnotateDSSP')
+        if peer.consulted == self.consulted_before:
+            # no molecule needed the peer (e.g. the system is empty after repair): nothing to check
+            self.child.stats.probes['ss_peer_not_needed'] += 1
+            return
         stats = child.stats
         stats.probes['ss_annotate_dssp'] += 1
         calls = peer.calls[ncalls0:]
